@@ -59,15 +59,23 @@ FILE_PROPS = {
 
 
 def sh(cmd, cwd=None, timeout=600, env=None):
+    """run a command in its own process group; on timeout the whole group is killed."""
+    import signal
+    p = subprocess.Popen(cmd, shell=isinstance(cmd, str), cwd=cwd, env=env or ENV, stdout=subprocess.PIPE,
+                         stderr=subprocess.STDOUT, text=True, errors='replace', start_new_session=True)
     try:
-        r = subprocess.run(cmd, shell=isinstance(cmd, str), cwd=cwd, env=env or ENV, stdout=subprocess.PIPE,
-                           stderr=subprocess.STDOUT, text=True, timeout=timeout, errors='replace')
-        return r.returncode, r.stdout
-    except subprocess.TimeoutExpired as e:
-        o = e.stdout or ''
-        if isinstance(o, bytes):
-            o = o.decode(errors='replace')
-        return 124, o + '\n[timeout]'
+        out, _ = p.communicate(timeout=timeout)
+        return p.returncode, out
+    except subprocess.TimeoutExpired:
+        try:
+            os.killpg(p.pid, signal.SIGKILL)
+        except OSError:
+            pass
+        try:
+            out, _ = p.communicate(timeout=30)
+        except Exception:  # noqa
+            out = ''
+        return 124, (out or '') + '\n[timeout]'
 
 
 # ------------------------------------------------------------------ tokeniser
@@ -452,7 +460,7 @@ def cmd_tests(args):
 
 
 # ------------------------------------------------------------------ stage B
-def run_check(vdir, tree, pid, timeout=2400):
+def run_check(vdir, tree, pid, timeout=1200):
     env = dict(ENV, VERIF_REPO=tree)
     rc, out = sh(['./check', pid], cwd=vdir, timeout=timeout, env=env)
     viol_lines = [l for l in out.split('\n') if l.startswith('VIOLATION ')]
@@ -486,7 +494,7 @@ def stage_b_one(vdir, tree, m, props=None):
         restore(tree, m)
 
 
-def stage_b(args, todo, outname):
+def stage_b(args, todo, outname, refill=None):
     workers = args.workers.split(',')
     q = queue.Queue()
     for m in todo:
@@ -496,7 +504,7 @@ def stage_b(args, todo, outname):
     t_end = time.time() + args.minutes * 60 if args.minutes else None
 
     def worker(k, vdir):
-        tree = make_tree('b%d' % k)
+        tree = make_tree('%s%d' % (getattr(args, 'tag', None) or 'b', k))
         try:
             while True:
                 if t_end and time.time() > t_end:
@@ -504,7 +512,9 @@ def stage_b(args, todo, outname):
                 try:
                     m = q.get_nowait()
                 except queue.Empty:
-                    return
+                    if refill is None or not refill(q):
+                        return
+                    continue
                 t0 = time.time()
                 try:
                     r = stage_b_one(vdir, tree, m, args.props.split(',') if getattr(args, 'props', None) else None)
@@ -529,17 +539,45 @@ def stage_b(args, todo, outname):
 
 
 def cmd_checks(args):
-    muts = {m['id']: m for m in load('mutants.jsonl')}
-    a = load('stageA.jsonl')
-    surv = [r['id'] for r in a if r['status'] == 'survived']
-    done = {r['id'] for r in load('stageB.jsonl')}
-    if args.only:
-        surv = [i for i in args.only.split(',') if i in muts]
-    todo = [muts[i] for i in surv if i not in done]
+    muts = load('mutants.jsonl')
+    order = {m['id']: i for i, m in enumerate(muts)}
+    byid = {m['id']: m for m in muts}
+    queued = {r['id'] for r in load('stageB.jsonl')}
+    lock = threading.Lock()
+
+    def pending():
+        a = load('stageA.jsonl')
+        surv = sorted((r['id'] for r in a if r['status'] == 'survived' and r['id'] not in queued), key=lambda i: order[i])
+        if args.only:
+            surv = [i for i in args.only.split(',') if i in byid and i not in queued]
+        return surv
+
+    def refill(q):
+        """stage A may still be running: pick up new survivors; wait while it is alive."""
+        with lock:
+            for _ in range(40):
+                if args.limit and len(queued) >= args.limit:
+                    return False
+                new = pending()
+                if new:
+                    for i in new:
+                        if args.limit and len(queued) >= args.limit:
+                            break
+                        queued.add(i)
+                        q.put(byid[i])
+                    return True
+                if not args.follow or args.only:
+                    return False
+                time.sleep(15)
+            return False
+
+    first = pending()
     if args.limit:
-        todo = todo[:max(0, args.limit - len(done))]
-    print('stage B: %d survivors, %d done, %d to do' % (len(surv), len(done), len(todo)), flush=True)
-    stage_b(args, todo, 'stageB.jsonl')
+        first = first[:max(0, args.limit - len(queued))]
+    print('stage B: %d done before, %d queued now' % (len(queued), len(first)), flush=True)
+    for i in first:
+        queued.add(i)
+    stage_b(args, [byid[i] for i in first], 'stageB.jsonl', refill)
 
 
 def cmd_recheck(args):
@@ -577,7 +615,7 @@ def cmd_report(args):
     tri = json.load(open(tri_p)) if os.path.exists(tri_p) else {}
     files = sorted(FILE_PROPS)
     rows = []
-    tot = [0] * 9
+    tot = [0] * 10
     for f in files:
         gen = [m for m in muts if m['file'] == f]
         ev = [m for m in gen if m['id'] in a]
@@ -590,8 +628,9 @@ def cmd_report(args):
         eq = sum(1 for m in und if tri.get(m['id'], {}).get('class') == 'equivalent')
         closed = sum(1 for m in und if tri.get(m['id'], {}).get('class') == 'gap-closed')
         opn = sum(1 for m in und if tri.get(m['id'], {}).get('class') == 'gap-open')
-        untri = len(und) - eq - closed - opn
-        row = [len(gen), len(ev), nb, killed, len(evb), det, eq, closed, opn]
+        els = sum(1 for m in und if tri.get(m['id'], {}).get('class') == 'detected-elsewhere')
+        untri = len(und) - eq - closed - opn - els
+        row = [len(gen), len(ev), nb, killed, len(evb), det, els, eq, closed, opn]
         tot = [x + y for x, y in zip(tot, row)]
         rows.append((f, row, untri))
     L = []
@@ -603,8 +642,8 @@ def cmd_report(args):
              'invalid = does not build / new vet warning; killed = the library\'s own tests fail; evaluated = test survivors put through '
              'the checks of the file\'s properties; detected = some `./check Cxx` reports it; the last three columns classify the '
              'UNDETECTED survivors after triage.\n')
-    L.append('| file | generated | sampled | invalid | killed by tests | survivors evaluated | detected | undetected: equivalent / outside | undetected: gap closed | undetected: gap open |')
-    L.append('|---|---|---|---|---|---|---|---|---|---|')
+    L.append('| file | generated | sampled | invalid | killed by tests | survivors evaluated | detected | detected by a check outside the file list | undetected: equivalent / outside | undetected: gap closed | undetected: gap open |')
+    L.append('|---|---|---|---|---|---|---|---|---|---|---|')
     for f, row, untri in rows:
         L.append('| %s | %s |' % (f, ' | '.join(str(x) for x in row)) + (' (untriaged %d)' % untri if untri else ''))
     L.append('| **total** | %s |' % ' | '.join('**%d**' % x for x in tot))
@@ -633,22 +672,26 @@ def cmd_report(args):
     L.append('')
     for cls, title in (('gap-closed', 'Gaps found and closed (undetected before, detected after the additions)'),
                        ('gap-open', 'Gaps left open'),
+                       ('detected-elsewhere', 'Undetected by the checks listed for the file, detected by another property\'s check'),
                        ('equivalent', 'Undetected: equivalent, or outside every property')):
         L.append('## ' + title + '\n')
-        L.append('| mutant | location | change | ' + ('missing input class / how closed | now detected by |' if cls != 'equivalent' else 'reason |'))
-        L.append('|---|---|---|---|' + ('---|' if cls != 'equivalent' else ''))
+        L.append('| mutant | location | change | ' + ('missing input class / how closed | now detected by |' if cls in ('gap-closed', 'gap-open') else 'reason |'))
+        L.append('|---|---|---|---|' + ('---|' if cls in ('gap-closed', 'gap-open') else ''))
         for m in muts:
             t = tri.get(m['id'])
             if not t or t.get('class') != cls or m['id'] not in b or b[m['id']]['verdict'] != 'UNDETECTED':
                 continue
             d = m['descr'].replace('|', '\\|')
-            if cls == 'equivalent':
+            if cls in ('equivalent', 'detected-elsewhere'):
                 L.append('| %s | %s:%d | `%s` | %s |' % (m['id'], m['file'], m['line'], d, t.get('reason', '')))
             else:
                 r2 = b2.get(m['id'])
                 now = ('%s (%s)' % (r2['by'], r2['how'])) if r2 and r2['verdict'] == 'detected' else ('still undetected' if r2 else 'not re-run')
                 L.append('| %s | %s:%d | `%s` | %s | %s |' % (m['id'], m['file'], m['line'], d, t.get('reason', ''), now))
         L.append('')
+    notes = os.path.join(ROOT, 'tools', 'mutation-notes.md')
+    if os.path.exists(notes):
+        L.append(open(notes).read())
     L.append('## All evaluated survivors\n')
     L.append('| mutant | location | op | change | verdict |')
     L.append('|---|---|---|---|---|')
@@ -669,9 +712,9 @@ def main():
     p = sub.add_parser('tests'); p.add_argument('--jobs', type=int, default=8); p.add_argument('--limit', type=int, default=0)
     p.add_argument('--minutes', type=float, default=0)
     p = sub.add_parser('checks'); p.add_argument('--workers', required=True); p.add_argument('--limit', type=int, default=0)
-    p.add_argument('--minutes', type=float, default=0); p.add_argument('--only', default='')
+    p.add_argument('--minutes', type=float, default=0); p.add_argument('--only', default=''); p.add_argument('--follow', action='store_true')
     p = sub.add_parser('recheck'); p.add_argument('--workers', required=True); p.add_argument('--ids', required=True)
-    p.add_argument('--out', default='stageB2.jsonl'); p.add_argument('--props', default=''); p.add_argument('--minutes', type=float, default=0)
+    p.add_argument('--out', default='stageB2.jsonl'); p.add_argument('--props', default=''); p.add_argument('--tag', default='r'); p.add_argument('--minutes', type=float, default=0)
     p = sub.add_parser('show'); p.add_argument('id')
     p = sub.add_parser('apply'); p.add_argument('id'); p.add_argument('tree')
     sub.add_parser('report')
